@@ -280,6 +280,7 @@ static int
 move_thread_to_final(const char *src, const char *dst)
 {
 	char buffer[1024];
+	int ret = 0;
 
 	FILE *infile = fopen(src, "r");
 
@@ -291,16 +292,35 @@ move_thread_to_final(const char *src, const char *dst)
 	FILE *outfile = fopen(dst, "w");
 
 	if (outfile == NULL) {
-		err("fopen(%s) failed:", src);
+		err("fopen(%s) failed:", dst);
+		fclose(infile);
 		return -1;
 	}
 
 	size_t bytes;
-	while ((bytes = fread(buffer, 1, sizeof(buffer), infile)) > 0)
-		fwrite(buffer, 1, bytes, outfile);
+	while ((bytes = fread(buffer, 1, sizeof(buffer), infile)) > 0) {
+		if (fwrite(buffer, 1, bytes, outfile) != bytes) {
+			err("fwrite(%s) failed:", dst);
+			ret = -1;
+			break;
+		}
+	}
 
-	fclose(outfile);
+	if (ferror(infile)) {
+		err("fread(%s) failed:", src);
+		ret = -1;
+	}
+
+	if (fclose(outfile) != 0) {
+		err("fclose(%s) failed:", dst);
+		ret = -1;
+	}
+
 	fclose(infile);
+
+	/* Never remove the source unless the copy is complete */
+	if (ret != 0)
+		return -1;
 
 	if (remove(src) != 0) {
 		err("remove(%s) failed:", src);
@@ -314,16 +334,13 @@ static void
 move_thdir_to_final(const char *thdir, const char *thdir_final)
 {
 	DIR *dir;
-	int ret = 0;
 
-	if ((dir = opendir(thdir)) == NULL) {
-		err("opendir %s failed:", thdir);
-		return;
-	}
+	if ((dir = opendir(thdir)) == NULL)
+		die("opendir %s failed:", thdir);
 
 	struct dirent *dirent;
 	const char *prefix = "stream.";
-	while ((dirent = readdir(dir)) != NULL) {
+	while (errno = 0, (dirent = readdir(dir)) != NULL) {
 		/* It should only contain stream.* directories, skip others */
 		if (strncmp(dirent->d_name, prefix, strlen(prefix)) != 0)
 			continue;
@@ -332,31 +349,27 @@ move_thdir_to_final(const char *thdir, const char *thdir_final)
 		if (snprintf(thread, PATH_MAX, "%s/%s", thdir,
 				    dirent->d_name)
 				>= PATH_MAX) {
-			err("snprintf: path too large: %s/%s", thdir,
-					dirent->d_name);
-			ret = 1;
-			continue;
+			die("path too large: %s/%s", thdir, dirent->d_name);
 		}
 
 		char thread_final[PATH_MAX];
 		if (snprintf(thread_final, PATH_MAX, "%s/%s", thdir_final,
 				    dirent->d_name)
 				>= PATH_MAX) {
-			err("snprintf: path too large: %s/%s", thdir_final,
+			die("path too large: %s/%s", thdir_final,
 					dirent->d_name);
-			ret = 1;
-			continue;
 		}
 
+		/* The stream only exists in the temporal directory, so
+		 * returning as if it had been moved would lose it silently */
 		if (move_thread_to_final(thread, thread_final) != 0)
-			ret = 1;
+			die("cannot move %s to %s", thread, thread_final);
 	}
 
-	closedir(dir);
+	if (errno != 0)
+		die("readdir %s failed:", thdir);
 
-	/* Warn the user, but we cannot do much at this point */
-	if (ret)
-		err("errors occurred when moving the thread dir to %s", thdir_final);
+	closedir(dir);
 }
 
 static void
@@ -632,7 +645,9 @@ ovni_thread_free(void)
 	free(rthread.evbuf);
 	rthread.evbuf = NULL;
 
-	close(rthread.streamfd);
+	if (close(rthread.streamfd) != 0)
+		die("close of the stream failed:");
+
 	rthread.streamfd = -1;
 
 	if (rproc.move_to_final) {
